@@ -30,6 +30,7 @@ type genCfg struct {
 	bigVals    float64
 	bigKV      float64 // boundary-length key/value probes (C19)
 	maxValue   bool    // ... including a value of 2^28-1 bytes (thorough tier)
+	partial    float64 // probability of a case shaped for partial (same-file) compactions
 	idle       float64 // probability that the idle merger is enabled
 	tinyDirty  float64
 	finalClose bool
@@ -100,6 +101,7 @@ func propCfg(prop string) genCfg {
 		base.weirdKeys = 0.3
 		base.drainW = 8
 		base.bigVals = 0.4
+		base.partial = 0.15
 	case "C07":
 		base.backings = []string{"store", "store", "store", "direct"}
 		base.flags = []string{"storeEach", "compactShape", "verifyEach", "dirCheck", "finalReopen"}
@@ -111,6 +113,7 @@ func propCfg(prop string) genCfg {
 		base.clockW = 8
 		base.bigVals = 0.6
 		base.merges = 0.3
+		base.partial = 0.3
 	case "C08":
 		base.flags = []string{"verifyEach", "storeEach", "finalVerify", "finalReopen"}
 		base.merges = 1
@@ -139,6 +142,7 @@ func propCfg(prop string) genCfg {
 		base.flags = []string{"history", "storeEach"}
 		base.concerns = []int{0, 0, 0, 1}
 		base.histW = 20
+		base.partial = 0.15
 		base.drainW = 25
 		base.kids = 0.3
 		base.idleW = 5
@@ -154,6 +158,7 @@ func propCfg(prop string) genCfg {
 		base.flags = []string{"snapEach", "leakCheck"}
 		base.snapW = 25
 		base.kids = 0.3
+		base.partial = 0.15
 		base.concerns = []int{0, 1, 2, 2}
 		base.reopen = 2
 		base.idle = 0.4
@@ -470,6 +475,24 @@ func genSingle(c *Case, r *simrt.Rand, cfg genCfg) {
 			c.Faults = append(c.Faults, f)
 		}
 	}
+	// A case shaped for partial compactions: a large first segment (a level of
+	// its own), then small batches each persisted on its own, few segments per
+	// level, compaction allowed and never "too fragmented".
+	partial := cfg.partial > 0 && store && r.Chance(cfg.partial)
+	if partial {
+		c.Opts.Concern = 1
+		c.Opts.CompactionPercentage = 100
+		c.Opts.LevelMaxSegments = pick(r, []int{1, 2, 2, 3})
+		c.Opts.LevelMultiplier = pick(r, []int{2, 3})
+		big := &BatchSpec{}
+		g.seq++
+		for i, k := range g.pool {
+			v := bytesRepeat(byte('a'+i%26), 8192)
+			copy(v, fmt.Sprintf("v%d.%d:", g.seq, i))
+			big.Ops = append(big.Ops, KV{Op: "set", K: k, V: v})
+		}
+		c.Prog = append(c.Prog, Op{Kind: "batch", B: big}, Op{Kind: "drain"})
+	}
 	n := 4 + r.Intn(cfg.maxOps)
 	type w struct {
 		kind string
@@ -505,6 +528,9 @@ func genSingle(c *Case, r *simrt.Rand, cfg genCfg) {
 		switch kind {
 		case "batch":
 			c.Prog = append(c.Prog, Op{Kind: "batch", B: g.batch()})
+			if partial && r.Chance(0.7) {
+				c.Prog = append(c.Prog, Op{Kind: "drain"})
+			}
 		case "verify":
 			c.Prog = append(c.Prog, Op{Kind: "verify"})
 		case "idle":
